@@ -148,6 +148,15 @@ where
                     }
                 }
             }.boxed()).detach();
+
+            // The other references to the target might have gone away while we were scheduling the poll, and we might be running on the target itself
+            // (a stream can wake us from within a poll), so if this turns out to be the last reference the target is disposed of on the reference chute
+            if let Some(last_target) = Arc::into_inner(target) {
+                REFERENCE_CHUTE.desync(move |_| {
+                    use std::mem;
+                    mem::drop(last_target);
+                });
+            }
         } else {
             // Stream has woken up but the desync is no longer listening
             let old_poll_fn = arc_self.poll_fn.lock().unwrap().take();
